@@ -4,7 +4,8 @@
 //! substitution in header regions (and a stride through page data), (e) asset faults at every
 //! call index (E-DEV, d=1 quick / d=2 thorough). Monitors: panic (caught), hang (watchdog +
 //! asset-call budget), largest single allocation request (counting global allocator), and the
-//! emulator must keep running afterwards.
+//! emulator must keep running afterwards. VTX files are also offered through readers that return
+//! short reads.
 
 use crate::formats::*;
 use crate::rig::{self, Emu, Fault, Opts, RegsView, VAsset, VDebug, VRomSet};
@@ -161,7 +162,12 @@ pub fn execute_q(c: &CaseSpec, quick: bool) -> (Outcome, usize, usize) {
             }
             Entry::Vtx => {
                 let cur = std::io::Cursor::new(c.bytes.as_ref().clone());
-                vtx::Vtx::load(cur).is_ok()
+                if c.chunk > 0 {
+                    // a reader that returns short reads (legal for std::io::Read)
+                    vtx::Vtx::load(ChunkedReader { inner: cur, chunk: c.chunk }).is_ok()
+                } else {
+                    vtx::Vtx::load(cur).is_ok()
+                }
             }
         }
     }));
@@ -179,10 +185,11 @@ pub fn execute_q(c: &CaseSpec, quick: bool) -> (Outcome, usize, usize) {
                 run_frames(&mut e, if quick { 5 } else { 50 });
                 e.stop_tape();
                 let _ = e.rewind_tape();
-                // two fast-load requests through the ROM entry
+                // five fast-load requests through the ROM entry: enough to walk over every block of the
+                // seed tapes and to come back to the tape after a request that failed
                 e.set_debug_interface(VDebug::at(&[0x8F00]));
                 let (req_ix, req_de) = c.request;
-                for _ in 0..2 {
+                for _ in 0..5 {
                     let mut v = RegsView::default();
                     v.pc = 0x0556;
                     v.sp = 0xFF40;
@@ -221,6 +228,23 @@ pub fn execute_q(c: &CaseSpec, quick: bool) -> (Outcome, usize, usize) {
         return (Outcome::Alloc(max_alloc), calls, max_alloc);
     }
     (if loaded { Outcome::Ok } else { Outcome::Err }, calls, max_alloc)
+}
+
+/// `Read + Seek` over a byte vector that never returns more than `chunk` bytes per call
+pub struct ChunkedReader {
+    pub inner: std::io::Cursor<Vec<u8>>,
+    pub chunk: usize,
+}
+impl std::io::Read for ChunkedReader {
+    fn read(&mut self, buf: &mut [u8]) -> std::io::Result<usize> {
+        let n = buf.len().min(self.chunk);
+        self.inner.read(&mut buf[..n])
+    }
+}
+impl std::io::Seek for ChunkedReader {
+    fn seek(&mut self, pos: std::io::SeekFrom) -> std::io::Result<u64> {
+        self.inner.seek(pos)
+    }
 }
 
 /// Asset wrapper counting calls into the runner's variables
@@ -518,6 +542,71 @@ fn build_families(quick: bool) -> Vec<Family> {
             }),
         });
     }
+    // structure-aware: SZX chunk ids in every letter-case spelling with chunk sizes below, at and
+    // above the chunk's fixed size (the id decides which fixed offsets the loader reads)
+    for m128 in [false, true] {
+        let ids: Vec<&'static [u8; 4]> = vec![b"Z80R", b"SPCR", b"RAMP", b"AY\0\0", b"KEYB", b"CRTR", b"AMXM", b"JOY\0"];
+        let sizes: Vec<usize> = vec![0, 1, 2, 3, 4, 7, 8, 17, 18, 36, 37, 38, 100];
+        let n = ids.len() * 16 * sizes.len();
+        fams.push(Family {
+            name: format!("szx-chunk-id-spellings:{}", if m128 { 128 } else { 48 }),
+            count: n,
+            make: Box::new(move |i| {
+                let size = sizes[i % sizes.len()];
+                let case_mask = (i / sizes.len()) % 16;
+                let id0 = ids[i / sizes.len() / 16];
+                let mut id = *id0;
+                for b in 0..4 {
+                    if case_mask & (1 << b) != 0 && id[b].is_ascii_alphabetic() {
+                        id[b] ^= 0x20;
+                    }
+                }
+                // header of a valid file for this machine, then the one chunk, then the rest of the valid file
+                let mut s = MState::new(m128, 2);
+                s.regs.pc = 0x9000;
+                s.banks[2][0x1000..0x1003].copy_from_slice(&[0xF3, 0x18, 0xFE]);
+                let valid = szx(&s, &SzxOpts::default());
+                let mut f = valid[..8].to_vec();
+                f.extend_from_slice(&id);
+                f.extend_from_slice(&(size as u32).to_le_bytes());
+                f.extend((0..size).map(|k| (k * 3 + 1) as u8));
+                f.extend_from_slice(&valid[8..]);
+                spec(Entry::Szx, m128, f, format!("szx-chunk-id:{}:size{}", String::from_utf8_lossy(&id).replace('\0', "."), size))
+            }),
+        });
+    }
+    // VTX through readers that return short reads: a header followed by every strings area over
+    // {'A', NUL} up to a length, read 1/2/3/5 bytes at a time
+    {
+        let maxlen = if quick { 10usize } else { 13 };
+        let per_len: Vec<usize> = (0..=maxlen).map(|l| 1usize << l).collect();
+        let total: usize = per_len.iter().sum();
+        fams.push(Family {
+            name: "vtx-strings-short-reads".into(),
+            count: total * 4,
+            make: Box::new(move |i| {
+                let chunk = [1usize, 2, 3, 5][i % 4];
+                let mut k = i / 4;
+                let mut len = 0;
+                while k >= (1usize << len) {
+                    k -= 1usize << len;
+                    len += 1;
+                }
+                let mut f: Vec<u8> = vec![b'a', b'y', 1, 0, 0];
+                f.extend_from_slice(&1_773_400u32.to_le_bytes());
+                f.push(50);
+                f.extend_from_slice(&2000u16.to_le_bytes());
+                f.extend_from_slice(&14u32.to_le_bytes());
+                for b in 0..len {
+                    f.push(if k & (1 << b) != 0 { 0 } else { b'A' });
+                }
+                f.extend_from_slice(&[1, 2, 3, 4, 5, 6, 7, 8]);
+                let mut c = spec(Entry::Vtx, false, f, format!("vtx-strings:len{}:pattern{:b}:chunk{}", len, k, chunk));
+                c.chunk = chunk;
+                c
+            }),
+        });
+    }
     for (entry, m128, name, data) in seeds() {
         let len = data.len();
         // (b) every prefix
@@ -617,6 +706,21 @@ fn build_families(quick: bool) -> Vec<Family> {
                     let mut d = data.as_ref().clone();
                     d[off] = val;
                     spec(entry, m128, d, format!("subst:{}:off{}={:02x}", name2, off, val))
+                }),
+            });
+        }
+        if entry == Entry::Vtx {
+            let data3 = data.clone();
+            let name3 = name.clone();
+            fams.push(Family {
+                name: format!("reader-chunked:{}", name),
+                count: 9,
+                make: Box::new(move |i| {
+                    let mut c = spec(entry, m128, vec![], String::new());
+                    c.bytes = data3.clone();
+                    c.chunk = [1usize, 2, 3, 127, 128, 129, 255, 256, 257][i];
+                    c.label = format!("chunked:{}:{}", name3, c.chunk);
+                    c
                 }),
             });
         }
